@@ -32,7 +32,9 @@ CheckUpload(e, line) ==
   IN /\ (Numbered(e.chunks) \/ Bad(line, "gridfs:chunk-numbers", "0..n-1", Len(e.chunks)))
      /\ (ChunksOK(LensOf(e.chunks), e.L, e.C) \/ Bad(line, "gridfs:chunks-malformed", <<e.L, e.C>>, <<Len(e.chunks), IF e.chunks = <<>> THEN 0 ELSE e.chunks[Len(e.chunks)][2]>>))
      /\ (LensOf(e.chunks) = st.lens \/ Bad(line, "gridfs:chunks-differ-from-model", Len(st.lens), Len(e.chunks)))
-     /\ ((e.hasfile /\ e.flen = e.L /\ e.fchunk = e.C) \/ Bad(line, "gridfs:file-record", <<e.L, e.C>>, <<e.hasfile, e.flen, e.fchunk>>))
+     /\ IF e.unclaimed       \* a finished tracked upload that was not claimed: the marker stands for it, there is no file record yet
+        THEN (~e.hasfile /\ e.markers = 1) \/ Bad(line, "gridfs:unclaimed-upload", "no file record, one marker", <<e.hasfile, e.markers>>)
+        ELSE (e.hasfile /\ e.flen = e.L /\ e.fchunk = e.C) \/ Bad(line, "gridfs:file-record", <<e.L, e.C>>, <<e.hasfile, e.flen, e.fchunk>>)
      /\ (\A i \in suspends : e.steps[i][2] = SuspendUpload(RunSteps(NewUpload, SubSeq(e.steps, 1, i - 1), 1, e.B, e.C), e.C).flushed
            \/ Bad(line, "gridfs:suspend-length", SuspendUpload(RunSteps(NewUpload, SubSeq(e.steps, 1, i - 1), 1, e.B, e.C), e.C).flushed, e.steps[i][2]))
 
